@@ -257,6 +257,8 @@ func (fc *FnCtx) applyContract(callee *ssa.Function, c *Contract, args []Val, bi
 			env.vars["&"+fv.Name()] = binds[i]
 		}
 	}
+	fc.ctr++
+	fc.bindContractVars(env, c, fmt.Sprintf("callv%d", fc.ctr))
 	env.resName = c.Results
 	if len(env.resName) == 0 {
 		res := callee.Signature.Results()
@@ -820,6 +822,7 @@ func (fc *FnCtx) doAppend(args []Val, pos token.Pos, resT types.Type) Val {
 	rcap := ite(fits, cp, ncap)
 	res := Val{T: resT, L: []string{rbase, roff, newlen, rcap}}
 	res = fc.nameVal(fc.fresh("app"), res)
+	fc.appendNewRef = nref
 	fc.appendElems(et, s, t, tlen, res, fits)
 	return res
 }
@@ -841,13 +844,45 @@ func (fc *FnCtx) allocObligationNoAssume(pos token.Pos, bytes string, what strin
 // Contents: result[0:len(s)] == s[0:len(s)], result[len(s)+j] == t[j]  (quantified axioms, only in content mode).
 func (fc *FnCtx) appendElems(et types.Type, s, t Val, tlen string, res Val, fits string) {
 	if ptrIsThin(et) {
-		// struct elements live at elt(base, idx); nothing tracked
+		// struct elements live in the struct heap at elt(base, idx)
+		n, isLit := litU64(tlen)
+		if !isLit || n > 4 || isStringType(t.T) || !isStruct(et) {
+			ns := newNameSet()
+			fc.eng.objectNames(et, ns)
+			fc.cur = fc.cur.havocked(ns)
+			return
+		}
+		// values being appended (read before any store)
+		var vals []Val
+		for j := uint64(0); j < n; j++ {
+			src := fc.eltRefNamed(t.L[0], app("bvadd", t.L[1], bvLit(j, 64)))
+			vals = append(vals, fc.loadAt(fc.cur, et, src))
+		}
+		// reallocation: the fresh backing array starts as a copy of the old elements. The cells of a fresh
+		// array have no prior observers, so this is stated as a fact about the current heap (no frame is lost).
 		ns := newNameSet()
 		fc.eng.objectNames(et, ns)
-		if !fc.eng.contentMode {
-			fc.cur = fc.cur.havocked(ns)
-		} else {
-			fc.cur = fc.cur.havocked(ns)
+		i := qsym(fc.fresh("qi"))
+		var copies []string
+		nameSorts := map[string]string{}
+		fc.eng.objectNameSorts(et, nameSorts)
+		for _, name := range ns.Sorted() {
+			srt := nameSorts[name]
+			if srt == "" {
+				continue
+			}
+			arr := fc.cur.get(name, srt)
+			dst := app("select", arr, app("elt", fc.appendNewRef, i))
+			srcc := app("select", arr, app("elt", s.L[0], app("bvadd", s.L[1], i)))
+			copies = append(copies, fmt.Sprintf("(forall ((%s (_ BitVec 64))) (! (=> (bvult %s %s) (= %s %s)) :pattern (%s)))", i, i, s.L[2], dst, srcc, dst))
+		}
+		if len(copies) > 0 {
+			fc.hasQuant = true
+			fc.cur.assume(implies(not(fits), and(copies...)))
+		}
+		for j := uint64(0); j < n; j++ {
+			dst := fc.eltRefNamed(res.L[0], app("bvadd", res.L[1], app("bvadd", s.L[2], bvLit(j, 64))))
+			fc.storeAt(fc.cur, et, dst, vals[j])
 		}
 		return
 	}
@@ -957,4 +992,21 @@ func sortedKeys(m map[string]bool) []string {
 	}
 	sort.Strings(out)
 	return out
+}
+
+func litU64(term string) (uint64, bool) {
+	if strings.HasPrefix(term, "#x") && len(term) == 18 {
+		var v uint64
+		if _, err := fmt.Sscanf(term[2:], "%x", &v); err == nil {
+			return v, true
+		}
+	}
+	return 0, false
+}
+
+// eltRefNamed returns elt(base, idx) together with its inverse-function facts.
+func (fc *FnCtx) eltRefNamed(base, idx string) string {
+	r := fc.define(fc.fresh("elt"), SortRef, fc.eltRef(base, idx))
+	fc.axiom(and(eq(app("elt_base", r), base), eq(app("elt_idx", r), idx), eq(app("sub_fid", r), bvLit(2, 16)), not(eq(r, bvLit(0, 64)))))
+	return r
 }
